@@ -636,7 +636,7 @@ func classify(tc tcase) (bool, []string) {
 }
 
 func TestC07Replies(t *testing.T) {
-	ev.Check(t, 20000, 120000, func(rt *rapid.T) {
+	ev.Check(t, 40000, 150000, func(rt *rapid.T) {
 		tc := genCase(rt)
 		nt, classes := classify(tc)
 		ev.Case(nt, tc.String(), classes...)
